@@ -211,7 +211,8 @@ class _Optimizers(_Algorithm2D):
         # to be put into sorted order to place them, even when they are the default ones
         sort_weights = self._sort_order is not None
         weight_array = _check_optional_array(
-            self._shape, weights, check_finite=self._check_finite, ensure_1d=False, axis=slice(None)
+            self._shape, weights, dtype=float, check_finite=self._check_finite, ensure_1d=False,
+            axis=slice(None)
         )
         if poly_order is None:
             poly_orders = _determine_polyorders(
